@@ -1,5 +1,20 @@
 #!/bin/bash
-# regenerates every claimed baseline (admission rules in cmd/exovc/check.go) - run on a clean /repo only
+# regenerates every claimed baseline (admission rules in cmd/exovc/check.go) - run on a clean /repo only.
+# Prints the number of claimed groups before and after and every group that is no longer claimed: a shrinking baseline
+# is how a broken engine or contract hides, so it must be looked at every time.
 cd /verif
 props=${@:-$(python3 -c "import json;print(' '.join(c['property_id'] for c in json.load(open('MANIFEST.json'))['checks']))")}
-for p in $props; do bin/exovc baseline -p $p -timeout 20s 2>&1 | tail -3; done
+for p in $props; do
+  cp baseline/$p.json /tmp/baseline_prev_$p.json 2>/dev/null
+  bin/exovc baseline -p $p -timeout 20s 2>&1 | grep "^baseline\|not verified"
+  python3 - $p <<'PY'
+import json,sys,os
+p=sys.argv[1]
+try: old=set(json.load(open('/tmp/baseline_prev_%s.json'%p))['groups'])
+except Exception: old=set()
+new=set(json.load(open('/verif/baseline/%s.json'%p))['groups'])
+lost=sorted(old-new)
+print('  %s: %d -> %d claimed groups%s'%(p,len(old),len(new),'' if not lost else '  LOST %d:'%len(lost)))
+for g in lost[:12]: print('     -',g)
+PY
+done
